@@ -70,7 +70,7 @@ def out (d : DSt) (k : String) (msg : String) : DSt × String :=
   let s := getKey d k
   (d, s!"{msg} {render s}{flag d.cfg s}")
 
-def roundEff (t : Int) : Int := (t + 125) / 250 * 250
+def roundEff (t : Int) : Int := t / 1000 * 1000
 
 def stepLine (d : DSt) (line : String) : DSt × String :=
   match words line with
